@@ -103,7 +103,8 @@ PolSupp(T, x, g) == LET w == ActW(T, x, g) IN {a \in Ac(T) : w[a] > 0}
 Update(T, g, a, o) ==
   IF ~IsPO(T) THEN <<>>
   ELSE IF T.pk = "ctrl"
-  THEN ReduceK([n2 \in Nodes(T) |-> SumTo([n \in Nodes(T) |-> Safe(g[n] * T.CU[n][a][o][n2])], T.NN)], T.NN)
+  THEN \* node weights conditioned on the action taken, pushed through the node kernel, renormalised
+       ReduceK([n2 \in Nodes(T) |-> SumTo([n \in Nodes(T) |-> Safe(Safe(g[n] * T.CA[n][a]) * T.CU[n][a][o][n2])], T.NN)], T.NN)
   ELSE Filter(T, g, a, o)
 
 \* the policy's initial agent state
